@@ -147,6 +147,21 @@ def letter_cut(repo):
     g_, lp = loops[0]
     lm = re.search(r'(\w+)\(text\[(\w+) - 1\]\)', norm(lp.test))
     if not lm:
+        # the letter test written in place: `while i > 0 and <test on text[i - 1]>` - folded for every character
+        m2 = re.match(r'^(\w+) > 0 and (.+)$', norm(lp.test))
+        cur2 = m2.group(1) if m2 else None
+        if m2 and ('text[%s - 1]' % cur2) in m2.group(2) and isinstance(lp.test, ast.BoolOp) and len(lp.test.values) == 2:
+            from ..peval import module_resolver as _mres0
+            res0 = _mres0(repo, g_.module)
+            acc0 = set()
+            try:
+                for ch in range(0, 0x250):
+                    if fold(lp.test.values[1], {}, {'text[%s - 1]' % cur2: chr(ch)}, res0):
+                        acc0.add(ch)
+            except Unfoldable as ex_:
+                raise AnalysisError('C14.1: cannot evaluate the letter test of the cut loop: %s' % ex_)
+            maximal0 = len(lp.body) == 1 and norm(lp.body[0]) in ('%s -= 1' % cur2, '%s = %s - 1' % (cur2, cur2))
+            return {'accepted': acc0, 'maximal': maximal0, 'form': 'loop', 'site': g_.loc(lp), 'why': 'the cut loop is `while %s`' % norm(lp.test), 'cursor': cur2}
         raise AnalysisError('C14.1: the cut loop does not test the character before the cursor: %s' % norm(lp.test))
     r_ = repo.lookup(g_.module, lm.group(1))
     if not (r_ and r_[0] == 'func'):
